@@ -128,3 +128,14 @@ def mix_desc(m):
     """Numbers that identify a mixture in a trace (for samples/replay)."""
     return {"name": m.name, "M1": float(m.first_component.molecular_weight),
             "M2": float(m.second_component.molecular_weight)}
+
+
+def as_given(rng, x, p_int=0.12, p_np=0.12):
+    """the same number as a user might pass it: a float, (sometimes) rounded to a Python int, or a numpy scalar"""
+    import numpy
+    u = rng.random()
+    if u < p_int and abs(x) >= 2:
+        return int(round(x))
+    if u < p_int + p_np:
+        return numpy.float64(x)
+    return float(x)
